@@ -3,7 +3,7 @@ from pyvc.verify import Post, Case, Equiv, NativeFacts
 from contracts import common
 
 PROPERTY = 'extra'
-REF_MODULES = ['ref_extra', 'ref_core']
+REF_MODULES = ['ref_extra', 'ref_core', 'ref_t']
 
 
 def config(cfg):
@@ -90,4 +90,54 @@ def contracts():
                            3: dict(vars=[('self', 'inst:core.TargetRegistry'), ('op_name', 'ref'), ('type_tree', 'ref')])}))
     cs.append(Equiv('core.Path.from_text', 'ref_extra.from_text_ref', config=_nosum('core.Path.from_text'), args={'cls': 'class:core.Path', 'text': 'ref'},
                     loops={1: dict(vars=[])}))
+    # the number of wildcard layers of a T expression counts the OPERATOR slots only (claimed by C14 and by C11: _apply_for_each relies on it)
+    cs.append(Equiv('core.TType.__stars__', 'ref_t.stars_ref', config=_nosum('core.TType.__stars__'), args={'self': 'inst:core.TType'}))
+    return cs
+
+
+def ctor_contracts():
+    """constructors (and tiny delegating methods) that only store their arguments: each field holds exactly the argument it is named after.
+    Post contracts; claimed by the checks whose property evaluates those fields."""
+    from pyvc.verify import Post, Case
+    cs = []
+    def stores(fn_, cls_, fields, args, extra_ensures=(), **kw):
+        ens = ['self.%s is %s' % (f, a) for f, a in fields] + list(extra_ensures)
+        cs.append(Post(fn_, cases=[Case('any', args=dict({'self': 'inst:' + cls_}, **args), ensures=ens, **kw)]))
+    stores('core.Pipe.__init__', 'core.Pipe', [], {'steps': 'seq'}, ['same(self.steps, steps)'])
+    stores('core.Val.__init__', 'core.Val', [('value', 'value')], {'value': 'ref'})
+    stores('core.Auto.__init__', 'core.Auto', [('spec', 'spec')], {'spec': 'ref'})
+    stores('core.Fill.__init__', 'core.Fill', [('spec', 'spec')], {'spec': 'ref'})
+    stores('core.Ref.__init__', 'core.Ref', [('name', 'name'), ('subspec', 'subspec')], {'name': 'ref', 'subspec': 'ref'})
+    stores('grouping.Group.__init__', 'grouping.Group', [('spec', 'spec')], {'spec': 'ref'})
+    stores('matching.Match.__init__', 'matching.Match', [('spec', 'spec'), ('default', 'default')], {'spec': 'ref', 'default': 'ref'})
+    stores('matching.Not.__init__', 'matching.Not', [('child', 'child')], {'child': 'ref'})
+    stores('matching._MExpr.__init__', 'matching._MExpr', [('lhs', 'lhs'), ('rhs', 'rhs')], {'lhs': 'ref', 'op': 'str', 'rhs': 'ref'}, ['self.op == op'])
+    stores('matching._MSubspec.__init__', 'matching._MSubspec', [('spec', 'spec')], {'spec': 'ref'})
+    stores('core.CoalesceError.__init__', 'core.CoalesceError', [('coal_obj', 'coal_obj'), ('skipped', 'skipped'), ('path', 'path')],
+           {'coal_obj': 'ref', 'skipped': 'ref', 'path': 'ref'})
+    stores('core.PathAssignError.__init__', 'core.PathAssignError', [('exc', 'exc'), ('path', 'path'), ('dest_name', 'dest_name')],
+           {'exc': 'ref', 'path': 'ref', 'dest_name': 'ref'})
+    stores('matching.CheckError.__init__', 'matching.CheckError', [('msgs', 'msgs'), ('check_obj', 'check'), ('path', 'path')],
+           {'msgs': 'ref', 'check': 'ref', 'path': 'ref'})
+    cs.append(Post('core.Spec.__init__', cases=[
+        Case('scope', args={'self': 'inst:core.Spec', 'spec': 'ref', 'scope': 'dict'}, requires=['scope'], ensures=['self.spec is spec', 'self.scope is scope']),
+        Case('no-scope', args={'self': 'inst:core.Spec', 'spec': 'ref', 'scope': 'none'}, ghosts={'k': 'ref'}, ensures=['self.spec is spec', 'k not in as_dict(self.scope)'])]))
+    cs.append(Post('grouping.Limit.__init__', cases=[
+        Case('subspec', args={'self': 'inst:grouping.Limit', 'n': 'ref', 'subspec': 'ref'}, requires=['subspec is not _MISSING'],
+             ensures=['self.n is n', 'self.subspec is subspec']),
+        Case('default', args={'self': 'inst:grouping.Limit', 'n': 'ref', 'subspec': 'ref'}, requires=['subspec is _MISSING'],
+             ensures=['self.n is n', 'len(as_list(self.subspec)) == 1', 'as_list(self.subspec)[0] is T'])]))
+    cs.append(Post('core.Let.__init__', cases=[
+        Case('some', args={'self': 'inst:core.Let', 'kw': 'kw:a'}, ensures=['self._binding is kw']),
+        Case('none', args={'self': 'inst:core.Let', 'kw': 'kw:'}, ensures=['False'], raises={'TypeError': 'True'})]))
+    cs.append(Post('core.Invoke.__init__', cases=[
+        Case('callable', args={'self': 'inst:core.Invoke', 'func': 'ref'}, requires=['callable(func)'],
+             ghosts={'k': 'ref'}, ensures=['self.func is func', 'len(self._args) == 0', 'k not in as_dict(self._cur_kwargs)'])]))
+    cs.append(Post('streaming.Iter.__init__', cases=[
+        Case('plain', args={'self': 'inst:streaming.Iter', 'subspec': 'ref', 'kwargs': 'kw:'},
+             ensures=['self.subspec is subspec', 'len(as_list(self._iter_stack)) == 0', 'self.sentinel is STOP']),
+        Case('stack', args={'self': 'inst:streaming.Iter', 'subspec': 'ref', 'kwargs': 'kw:_iter_stack,sentinel'},
+             ensures=['self.subspec is subspec', "self._iter_stack is kw__iter_stack", "self.sentinel is kw_sentinel"])]))
+    cs.append(Post('core._ArgValuator.__init__', cases=[
+        Case('any', args={'self': 'inst:core._ArgValuator'}, ghosts={'k': 'ref'}, ensures=['k not in self.cache'])]))
     return cs
